@@ -330,7 +330,7 @@ func runPrepare(o *Opts) {
 	sink := NewSink(o.Out, "prepare", "Corr.RunPrepare",
 		"cases: package trees (regular files with odd modes, nested and empty directories, version-control and tool directories) with 0-4 links drawn from 22 shapes (in-package file/directory, chains, absolute into the working directory, leaving and re-entering it by name, to a sibling package, to the manifest, out of the bundle relative/absolute/from depth, dangling, self loop, through or inside directories a rule removes, to a special file, to the package root), fifos, and rule files of 1-4 rules (or a rule file that is itself a link); fetched as the root package or as a dependency of a clean package by the real Builder in a chrooted child; non-trivial = the build closed; distinct by tree and position",
 		60)
-	n := 260 * o.Scale
+	n := 360 * o.Scale
 	if o.Tier == "thorough" {
 		n = 6000 * o.Scale
 	}
